@@ -25,7 +25,7 @@ Qed.
 
 Theorem fdiff_m_eq old new : fdiff_m old new = fdiff_g (ck_rule COLLISION_RULE) old new.
 Proof.
-  unfold fdiff_m, fdiff_g, collide. f_equal. apply flat_map_ext. intros op.
+  unfold fdiff_m, fdiff_g, collide. apply (f_equal (fun l => fdiff old new ++ l)). apply flat_map_ext. intros op.
   apply collide_one_ext. intros. apply collision_spec. assumption.
 Qed.
 
@@ -36,6 +36,30 @@ Proof.
 Qed.
 Lemma fdiff_g_off old new : fdiff_g (ck_rule false) old new = fdiff old new.
 Proof. unfold fdiff_g, collide. rewrite collide_off_gen. apply app_nil_r. Qed.
+
+(* the table rules are part of the code under test; a report of an old-side member names a parameter whose kind changed *)
+Lemma fdiff_sub ck old new b : In b (fdiff old new) -> In b (fdiff_g ck old new).
+Proof. intros H. unfold fdiff_g. apply in_or_app. left. exact H. Qed.
+Theorem reports_sound_g ck old new b : In b (fdiff_g ck old new) -> changed old new b.
+Proof.
+  unfold fdiff_g. intros H. apply in_app_or in H. destruct H as [H|H]; [apply reports_sound; exact H|].
+  unfold collide in H. apply in_flat_map in H. destruct H as [op [Hop H]]. unfold collide_one in H.
+  destruct (find (pname op) new) as [np|] eqn:Hf; [|destruct H].
+  match type of H with In _ (if ?c then _ else _) => destruct c eqn:C end; [|destruct H].
+  destruct H as [<-|[]]. simpl. exists op, np. repeat split; auto.
+  apply andb_prop in C. destruct C as [C _]. apply andb_prop in C. destruct C as [C _].
+  apply negb_true_iff, kind_eqb_neq in C. exact C.
+Qed.
+
+(* identical signatures are silent, whatever the old-side members *)
+Theorem identical_silent_g ck s : nodup_names s = true -> fdiff_g ck s s = [].
+Proof.
+  intros Hnd. unfold fdiff_g. rewrite (identical_silent s Hnd). simpl. unfold collide.
+  assert (G : forall l, (forall p, In p l -> find (pname p) s = Some p) -> flat_map (collide_one ck s s) l = []).
+  { induction l as [|p l IH]; intros Hl; [reflexivity|]. simpl. rewrite IH by (intros q Hq; apply Hl; right; exact Hq).
+    unfold collide_one. rewrite (Hl p (or_introl eq_refl)), kind_eqb_refl. reflexivity. }
+  apply G. intros p Hp. apply nodup_in_find; assumption.
+Qed.
 
 (* ---- under silence of the table rules, each of F4..F7 makes the collision rule fire ---- *)
 Lemma in_collide ck old new op : In op old -> collide_one ck old new op <> [] -> collide ck old new <> [].
@@ -112,7 +136,7 @@ Proof.
   unfold known_gap in H. unfold known_gap_g, gaps_4567.
   destruct (F2 old new); [right; reflexivity|]. simpl in *.
   destruct rule; simpl.
-  - left. unfold fdiff_g. rewrite Hd. simpl. apply (gap_fires old new Ho Hn Hd). unfold gaps_4567.
+  - left. unfold fdiff_g. rewrite Hd. simpl. apply (gap_fires old new Ho Hd). unfold gaps_4567.
     destruct (F4 old new), (F5 old new), (F6 old new), (F7 old new); simpl in *; try reflexivity; discriminate.
   - right. exact H.
 Qed.
@@ -158,7 +182,7 @@ Proof. repeat split; reflexivity. Qed.
 Definition complete_at_m (old new : sig) (n : nat) (K : list nat) : Prop :=
   binds old n K = true -> binds new n K = false -> fdiff_m old new <> [].
 
-Ltac refute := split; [reflexivity|]; split; [reflexivity|]; intros H; apply H; try reflexivity.
+Ltac refute := split; [reflexivity|]; split; [reflexivity|]; intros H; apply H; [reflexivity|reflexivity|].
 
 (* F2:  old [star a, starstar b]  ->  new [c=1, star a, starstar b];  call f(0, c=0) -- with or without the collision rule *)
 Theorem complete_refuted_F2_m : exists old new n K, wf old = true /\ wf new = true /\ ~ complete_at_m old new n K.
@@ -194,7 +218,7 @@ Example complete_m_premises_satisfiable :
   wf old = true /\ wf new = true /\ binds old 2 [] = true /\ binds new 2 [] = false /\
   fdiff_m old new = [ChKind 1] /\ known_gap_m old new = false.
 Proof.
-  repeat split; try reflexivity.
+  split; [reflexivity|]. split; [reflexivity|]. split; [reflexivity|]. split; [reflexivity|]. split.
   - rewrite fdiff_m_eq. destruct COLLISION_RULE; reflexivity.
   - unfold known_gap_m, known_gap_g. destruct COLLISION_RULE; reflexivity.
 Qed.
